@@ -761,7 +761,8 @@ fn layout_oracle(c: &mut Ctx, bytes: &[u8], label: &str) {
 }
 /// the `Vec::with_capacity` requests the model logs (element counts) are the counts of the header
 /// of the block that is decoded (`hdr` starts at that header)
-/// Direct oracles on every ACCEPTED file (round 3, both are findings on the crate):
+/// Direct oracles on every ACCEPTED file (round 3; findings F35 / F36, both repaired in the crate —
+/// the oracles stay as plain failures):
 /// (1) "bad version" / "inconsistent data": the version field of the second header must equal the
 /// first header's (RFC 8536 §3.1); the reader compares neither and decodes with the second one — a
 /// second header saying version 1 makes it take the HIGH four bytes of every 8-byte time;
@@ -1043,8 +1044,11 @@ fn mutations(c: &mut Ctx, base: &[u8], l: &Layout, ext_footer: bool) -> Vec<(Str
             if base[h + 4] != v {
                 let mut b = base.to_vec();
                 b[h + 4] = v;
-                let must = (hi == 0 && (v == 0 || base[h + 4] == 0)) || (v != b'3' && ext_footer && hi == 1);
-                out.push(("mut.version.other".into(), b, must));
+                // F35 (repaired): the base file carries the same version in both headers, so changing
+                // either byte to another KNOWN version makes the pair inconsistent (or turns a v1 file
+                // into a v2+ file without a second block, or the reverse): always rejected
+                let _ = ext_footer;
+                out.push(("mut.version.other".into(), b, true));
             }
         }
         // reserved bytes are ignored
@@ -1066,11 +1070,10 @@ fn mutations(c: &mut Ctx, base: &[u8], l: &Layout, ext_footer: bool) -> Vec<(Str
         if cut >= base.len() {
             continue;
         }
-        // the only proper prefix of a well-formed file that the READER accepts: cut right after the
-        // footer's first newline (a one-byte footer "\n"; a finding of round 3 — it is judged by
-        // `versions_oracle` under its own prefix, not by `must_reject`)
-        let ok_cut = l.footer_off.map(|f| cut == f + 1).unwrap_or(false);
-        out.push((if ok_cut { "mut.trunc.emptyfooter".into() } else { "mut.trunc".into() }, base[..cut].to_vec(), !ok_cut));
+        // F36 (repaired): NO proper prefix of a well-formed file is accepted — the cut right after the
+        // footer's first newline (a one-byte footer "\n") used to be; it keeps its own label
+        let nl_cut = l.footer_off.map(|f| cut == f + 1).unwrap_or(false);
+        out.push((if nl_cut { "mut.trunc.emptyfooter".into() } else { "mut.trunc".into() }, base[..cut].to_vec(), true));
     }
     // trailing data
     {
